@@ -61,6 +61,8 @@ structure Cfg where
   role : Tid → Role
   /-- what the transaction body of thread `t` makes of the snapshot it was given -/
   body : Tid → Content → Content
+  /-- `writer(replacement=True)`: the private version starts empty instead of as a copy of the zone -/
+  repl : Tid → Bool := fun _ => false
 
 structure Local where
   pc : Pc := .idle
@@ -147,8 +149,8 @@ def step (c : Cfg) (s : State) (t : Tid) : Option State :=
     | none => none
   -- self._write_txn._setup_version(): id = zone._get_next_version_id()
   | .wSetupId => some (s.setLoc t { l with pc := .wSetupCopy, vid := s.lastId + 1 })
-  --                                  self.nodes.update(zone.nodes)
-  | .wSetupCopy => some (s.setLoc t { l with pc := .wReturn, snap := s.nodes })
+  --                                  if not replacement: self.nodes.update(zone.nodes)
+  | .wSetupCopy => some (s.setLoc t { l with pc := .wReturn, snap := if c.repl t then [] else s.nodes })
   -- return self._write_txn
   | .wReturn => some (s.setLoc t { l with pc := .wBody })
   -- the transaction body, on the private version
